@@ -182,17 +182,18 @@ func (ex *Exec) callDeferred(st *State, fr *Frame, d *deferred) {
 
 // havocCall models an unknown callee: fresh results, everything reachable from pointer arguments havocked.
 func (ex *Exec) havocCall(st *State, fr *Frame, ins ssa.Instruction, name string, sig *types.Signature, args []Value, dst ssa.Value, writes bool) {
-	if writes {
-		for _, a := range args {
-			ex.havocReach(st, a, map[*Object]bool{})
-		}
-	}
 	var res Value
 	if sig != nil {
 		res = ex.freshResults(sig, sanitize(shortName(name)))
 	}
 	ex.setResult(st, fr, dst, res)
+	// the call event is observed with the arguments as they were passed; the callee's writes come after
 	ex.event(st, &Event{Callee: name, Args: args, Results: tupleElems(res), Instr: ins, Fn: fr.Fn, Kind: "call"})
+	if writes {
+		for _, a := range args {
+			ex.havocReach(st, a, map[*Object]bool{})
+		}
+	}
 }
 
 func shortName(n string) string {
@@ -365,10 +366,12 @@ func (ex *Exec) invoke(st *State, fr *Frame, ins ssa.Instruction, c *ssa.CallCom
 	case "readonly":
 		res = ex.freshResults(sig, sanitize(shortName(name)))
 	default:
-		for _, a := range args {
-			ex.havocReach(st, a, map[*Object]bool{})
-		}
 		res = ex.freshResults(sig, sanitize(shortName(name)))
+		defer func() {
+			for _, a := range args {
+				ex.havocReach(st, a, map[*Object]bool{})
+			}
+		}()
 	}
 	// A4: a signer's signature verifies against its own address: Verify(m, Sign(m).sig, Sign(m).digest, Address()) == nil
 	if kind == "pure" && c.Method.Name() == "Sign" && iv != nil && len(args) == 1 {
